@@ -409,7 +409,10 @@ def c16(tier):
         c = dict(SYNC_BASE)
         c.update(over)
         cfg = os.path.join(work, name + ".cfg")
-        sync_cfg(cfg, c, ["TopBounded", "NoDeadlock"], ["ClosedIsFinal", "WritersFinish", "NotifiersReturn", "CloseReturns", "BlockedWritersReleased"])
+        props = ["ClosedIsFinal", "WritersFinish", "NotifiersReturn", "CloseReturns", "BlockedWritersReleased"]
+        if c["NNotifiers"] == "0":
+            props.remove("NotifiersReturn")     # quantifies over no notifier: TLC refuses a tautology
+        sync_cfg(cfg, c, ["TopBounded", "NoDeadlock"], props)
         res = vlib.run_tlc("MCSync.tla", cfg, work, timeout=2400)
         rep.add_tlc(name, res, c)
         if res.violation:
